@@ -517,8 +517,9 @@ class QasmVisitor:
         logger.debug("Visiting reset statement '%s'", str(statement))
         if len(self._function_qreg_size_map) > 0:  # atleast in SOME function scope
             # transform qubits to use the global qreg identifiers
-            statement.qubits = (
-                Qasm3Transformer.transform_function_qubits(  # type: ignore[assignment]
+            # (on a new node: the statement is visited again on later loop iterations)
+            statement = qasm3_ast.QuantumReset(
+                qubits=Qasm3Transformer.transform_function_qubits(  # type: ignore[arg-type]
                     statement,
                     self._function_qreg_size_map[-1],
                     self._function_qreg_transform_map[-1],
@@ -556,10 +557,9 @@ class QasmVisitor:
         if len(self._function_qreg_size_map) > 0:  # atleast in SOME function scope
             # transform qubits to use the global qreg identifiers
 
-            # since we are changing the qubits to IndexedIdentifiers, we need to supress the
-            # error for the type checker
-            barrier.qubits = (
-                Qasm3Transformer.transform_function_qubits(  # type: ignore [assignment]
+            # (on a new node: the statement is visited again on later loop iterations)
+            barrier = qasm3_ast.QuantumBarrier(
+                qubits=Qasm3Transformer.transform_function_qubits(  # type: ignore [arg-type]
                     barrier,
                     self._function_qreg_size_map[-1],
                     self._function_qreg_transform_map[-1],
